@@ -51,7 +51,9 @@ class C07(Prop):
                   "Pending left out; proof = invariant over every schedule, C02's pollNext_preserves / pollData_spec per frame-layer "
                   "call), C07_healthy_stream_prefix_polled (at every earlier point: nothing, or the head and a PREFIX of its own DATA "
                   "payloads; end only with all of them; never an error), C07_healthy_stream_schedule_irrelevant (two cuttings, two "
-                  "schedules, two histories: same head, body bytes, trailers); C07_healthy_stream_delivers_partial kept for the record "
+                  "schedules, two histories: same head, body bytes, trailers), C07_healthy_stream_polled_as_delivered_first (its instance: "
+                  "polled again after every Pending = everything delivered first; follows_delivered_first); "
+                  "C07_healthy_stream_delivers_partial kept for the record "
                   "(conditional on FrameSim, superseded)")
     level_note = ("remaining hypotheses of the healthy-stream theorems (all decidable statements about the stream's own bytes or the "
                   "oracle): chunks non-empty, no DATA frame of usize::MAX bytes, the header oracle accepts the head block and the "
